@@ -19,13 +19,15 @@ returns or raises.
       start states.
 * `applyPatches_restores`, `monkey_restores`, `patchState_empty_after`, `lookup_restored`
       the named instances / corollaries (all full strength)
-* `x64_restored`              `to_onnx` leaves the global x64 flag as found (model shared with C18)
+* `x64_restored`, `x64_restored_whole_call`  `to_onnx` leaves the global x64 flag as found, the emit
+      stage after the guarded block included (model shared with C18)
+      Exception points never distinguish exception classes (any BaseException).
 * regression, about the machine BEFORE the fix (`J2O.Model.C13Old`): `old_capture_leaks`,
   `old_entry_fault_leaks` (the two former refutation witnesses) next to `capture_restored`,
   `entry_fault_restored` (the same programs on the repaired machine)
 -/
 import J2O.Lemmas.C13
-import J2O.Lemmas.C18
+import J2O.Props.C18
 import J2O.Model.C13Old
 set_option linter.unusedSimpArgs false
 set_option linter.unusedVariables false
@@ -194,5 +196,14 @@ theorem x64_restored (en : Bool) (pre body post : XP) (f : Bool) :
     (xrun (.tmp en (.seq pre (.seq (.force en body) post))) f).1 = f := by
   simp only [xrun]
   exact ite_restore _ _
+
+open J2O.C18 in
+/-- … and the whole call, including the emit stage that follows the guarded block (input_params,
+    custom names, `to_proto`, file save), which does not write the flag: returns or raises, in any
+    stage, with any exception class — flag as found. -/
+theorem x64_restored_whole_call (en : Bool) (pre body post emit : XP) (f : Bool)
+    (h : emit.flagFree = true) :
+    (xrun (.seq (.tmp en (.seq pre (.seq (.force en body) post))) emit) f).1 = f :=
+  x64_restored_to_onnx_whole_call en pre body post emit f h
 
 end J2O.C13
